@@ -55,6 +55,16 @@ pub fn c01(c: &mut Ctx) {
         same(c, "NaiveDate::from_yo", &format!("{y} {o}"), guard(|| NaiveDate::from_yo(y, o)), guard(|| NaiveDate::from_yo_opt(y, o)));
         same(c, "NaiveDate::from_isoywd", &format!("{y} {w} {wd}"), guard(|| NaiveDate::from_isoywd(y, w, wd)), guard(|| NaiveDate::from_isoywd_opt(y, w, wd)));
         same(c, "NaiveDate::from_num_days_from_ce", &format!("{n}"), guard(|| NaiveDate::from_num_days_from_ce(n)), guard(|| NaiveDate::from_num_days_from_ce_opt(n)));
+        // the panicking `succ` / `pred` are `succ_opt` / `pred_opt` unwrapped (panic exactly at MAX / MIN)
+        let date = match c.rng.below(8) {
+            0 => NaiveDate::MAX,
+            1 => NaiveDate::MIN,
+            2 => NaiveDate::MAX.pred_opt().unwrap(),
+            3 => NaiveDate::MIN.succ_opt().unwrap(),
+            _ => NaiveDate::from_num_days_from_ce_opt(n).unwrap_or(NaiveDate::MAX),
+        };
+        same(c, "NaiveDate::succ", &format!("{date:?}"), guard(|| date.succ()), guard(|| date.succ_opt()));
+        same(c, "NaiveDate::pred", &format!("{date:?}"), guard(|| date.pred()), guard(|| date.pred_opt()));
     }
 }
 
